@@ -62,6 +62,24 @@ def main(n, seed):
                 want = {md5(files["sub/p"]), md5(files["sub/q"])}
                 if not want <= set(r1.all()):
                     return "the remote designated for data/sub received nothing although the objects below it are reachable"
+            elif kind == "remote-reset-with-index":
+                # a remote with a local index of its contents (tmp_dir); after a complete push the remote loses everything behind our
+                # back; the next push of the same data has to notice and deliver every object again
+                cache, r0 = odb("cache", True), odb("R0", True)
+                doid = add_dir(cache, {"x": f"x-{case}".encode(), "sub/y": f"y-{case}".encode()})
+                loose = f"loose-{case}".encode(); cache.add_bytes(md5(loose), loose)  # noqa: E702
+                def mk():
+                    idx = DataIndex({("d",): DataIndexEntry(key=("d",), meta=Meta(isdir=True), hash_info=HashInfo("md5", doid)),
+                                     ("f",): DataIndexEntry(key=("f",), meta=Meta(), hash_info=HashInfo("md5", md5(loose)))})
+                    idx.storage_map.add_cache(ObjectStorage((), cache)); idx.storage_map.add_remote(ObjectStorage((), r0))  # noqa: E702
+                    return idx
+                push(collect([mk()], "remote", push=True))
+                want = set(r0.all())
+                for o in list(want):
+                    os.unlink(r0.oid_to_path(o))
+                pushed, failed = push(collect([mk()], "remote", push=True))
+                if set(r0.all()) != want:
+                    return f"after the remote was emptied, a second push (pushed={pushed}, failed={failed}) left {len(want - set(r0.all()))} of {len(want)} objects missing"
             elif kind == "fault-in-one-remote":
                 # two remotes behind two prefixes; every upload of one object bound for ONE of them fails (each remote in turn):
                 # pushed + failed add up to the objects that had to move, and failed counts what did not arrive
@@ -127,7 +145,7 @@ def main(n, seed):
                     return "a directory that could not be delivered completely was not reported as failed"
         return None
 
-    KINDS = ["shared-content-indexed", "nested-prefix-first", "partial-cache", "fault-in-one-remote", "verifying-remote-corrupt"]
+    KINDS = ["shared-content-indexed", "nested-prefix-first", "partial-cache", "fault-in-one-remote", "verifying-remote-corrupt", "remote-reset-with-index"]
     for case in range(n):
         if case % 5 == 4:
             kind = KINDS[(case // 5) % len(KINDS)]
@@ -193,7 +211,7 @@ def main(n, seed):
             if problems:
                 fails.append({"prefix->remote": assign, "entries": {"/".join(k): v for k, v in spec.items()}, "problems": problems})
     return {"evaluations": n, "distinct_nontrivial": len(distinct), "failures": fails[:2], "n_failures": len(fails),
-            "bound": "<= 4 disjoint top-level prefixes, <= 3 remotes, <= 3 entries per prefix, directory objects with <= 3 files; every fifth: remote indexes with shared content / a storage prefix inside an unloaded directory / a partial cache / an upload fault in one of two remotes / a verifying remote holding a corrupt object"}
+            "bound": "<= 4 disjoint top-level prefixes, <= 3 remotes, <= 3 entries per prefix, directory objects with <= 3 files; every fifth: remote indexes with shared content / a storage prefix inside an unloaded directory / a partial cache / an upload fault in one of two remotes / a verifying remote holding a corrupt object / a remote emptied behind its local index"}
 
 
 if __name__ == "__main__":
